@@ -36,6 +36,14 @@ def obligations(tier):
                 continue
             obs.append(Ob(f"cfg:{spec_name(('ind', name, kw))}{extra}/tf={tf}/fill={fill}/n={nn}", dict(spec=["ind", name, kw], n=nn, tf=tf, fill=fill, sched="family", extra=extra), EQ,
                           weight=(10 if name in HEAVY else 1) * nn, budget_s=240 if tier == "quick" else 3600, max_paths=20000 if tier == "quick" else 400000))
+    # a 40-second grid: three raw candles per T2 bucket, so a bucket is merged into more than once before it closes
+    for kind, name, kw, w in all_specs(tier):
+        if name in HEAVY or (kind == "amorph" and tier == "quick" and name not in ("positive", "highest", "mean_rising")):
+            continue
+        nn = 3 * (w + 1) + 2
+        for fill in ((False,) if tier == "quick" else (False, True)):
+            obs.append(Ob(f"{spec_name((kind, name, kw))}/tf=T2/fill={fill}/step=40s/n={nn}", dict(spec=[kind, name, kw], n=nn, tf="T2", fill=fill, sched="family", step=40), EQ,
+                          weight=nn, budget_s=240 if tier == "quick" else 3600, max_paths=20000 if tier == "quick" else 400000))
     # indicators chained inside a Hexital (one reads the other's output): batch vs every append schedule
     for n in ((5,) if tier == "quick" else (5, 6)):
         obs.append(Ob(f"hexital-chain/n={n}", dict(n=n), EQ, fn="run_chain", weight=20, budget_s=600))
@@ -111,8 +119,13 @@ def schedules(n, mode):
 def run(ctx, P):
     spec = tuple(P["spec"][:3])
     n = P["n"]
-    cs = mk_candles(ctx, n, start=GRID0 + 60 * P.get("start", 1))
-    if P.get("fill"):
+    step = P.get("step", 60)
+    cs = mk_candles(ctx, n, step=step, start=GRID0 + step * P.get("start", 1))
+    if P.get("fill") and step != 60:
+        for i, c in enumerate(cs):
+            if i >= 2:
+                c.timestamp = ctx.const_time(GRID0 + step * (P.get("start", 1) + i) + 240)     # a hole of two whole T2 buckets
+    elif P.get("fill"):
         # with gap filling on, the stream has a hole of two whole buckets after its second candle, so that the
         # manager really inserts candles - at construction in the batch run, in the middle of the history when appending
         for i, c in enumerate(cs):
